@@ -456,7 +456,7 @@ def st_malloc(L, ex, a, I):
         n = ex.concretize(n, 0, 1 << 20, 'malloc size')
     o = ex.mem.alloc(n, False, 'malloc%d' % (ex.mem.n + 1), 'c')
     o.meta = {'malloc': True}
-    ex.__dict__.setdefault('mallocs', []).append(o)
+    ex.pstate.setdefault('mallocs', []).append(o)
     return Ptr(o, 0)
 
 def st_free(L, ex, a, I):
